@@ -1138,14 +1138,21 @@ func (it *stringIter) next(in *Interp) tuple {
 		it.i += size
 		return tuple{in.tb.True, in.intConst(int64(idx)), in.tb.BV(SBV32, uint64(r))}
 	}
-	// symbolic: ASCII fast path, else unsupported
+	// symbolic: ASCII fast path, else the real utf8.DecodeRuneInString on the rest of the string
 	b := in.strIndex(it.s, it.i)
 	if in.branch(in.tb.BVULt(b, in.tb.BV(SBV8, 0x80))) {
 		idx := it.i
 		it.i++
 		return tuple{in.tb.True, in.intConst(int64(idx)), in.tb.BVConv(b, SBV32, false)}
 	}
-	panic(unsupported{"range over string with symbolic non-ASCII byte"})
+	dec := in.findFunc("unicode/utf8", "DecodeRuneInString")
+	if dec == nil {
+		panic(unsupported{"range over string with symbolic non-ASCII byte"})
+	}
+	res := in.call(nil, 0, dec, []value{in.strSlice(it.s, it.i, n)}).(tuple)
+	idx := it.i
+	it.i += in.toInt(res[1], "rune size")
+	return tuple{in.tb.True, in.intConst(int64(idx)), res[0]}
 }
 
 func decodeRuneInString(s string) (rune, int) { return utf8.DecodeRuneInString(s) }
